@@ -134,7 +134,7 @@ def run(check, an: Analysis):
     writers = rules.attribute_stores(an, '_owner', LOCK)
     for fn, stmt, target, recvs in writers:
         where = '%s:%d' % (fn.module.relpath, stmt.lineno)
-        ok = fn.cls is not None and fn.cls.qn == LOCK and \
+        ok = rules.owned_by(an, fn, LOCK) and \
             fn.name in ('__init__', '__aenter__', '__release__')
         check.instance('X', 'writer:%s' % short(fn.qn), ok, where,
                        '_owner written by %s' % short(fn.qn), nontrivial=False)
